@@ -1,7 +1,14 @@
 // c01: conformance harness for BSP.tla / Trace_BSP.tla (property C01).
 //
-//	c01 random  -n N -out TRACE -res R             seeded random scenarios with schedule perturbation
+//	c01 random  -n N [-pt M] -out TRACE -res R     seeded random scenarios with schedule perturbation
 //	c01 scripts -in FILE -out TRACE -res R         TLC behaviours / directed schedules replayed with gates
+//
+// Scenarios run with pts (every scripted scenario, the first M random ones) also record one `Pt` line for
+// every verif hook point a goroutine passes: the input of the implementation-level trace validation
+// (Trace_BSPImpl.tla). A Pt line is written by the goroutine that passed the point, first thing in the
+// hook, i.e. AFTER the step the point follows and with no lock held (no bsp.* point sits inside a
+// critical section): a confirmation line. ExportBegin / ExportEnd are written inside ExportSpans, i.e.
+// while batchMutex is held: exact lines.
 //
 // Every scenario drives a real BatchSpanProcessor registered in a real TracerProvider (span.End is
 // the real path into OnEnd) and records the API-level history plus the hook events as ndjson.
@@ -156,7 +163,12 @@ func (e *recExporter) ExportSpans(ctx context.Context, spans []sdktrace.ReadOnly
 		e.tw.Emit(map[string]any{"ev": "Log", "sc": e.sc, "total": t.(int)})
 	}
 	_, hasDL := ctx.Deadline()
-	e.tw.Emit(map[string]any{"ev": "ExportBegin", "sc": e.sc, "ids": ids, "deadline": hasDL})
+	// who exports: a ForceFlush's export helper carries the caller's ctx, the worker's ctx has no value
+	who := "w"
+	if pi, ok := ctx.Value(procKey{}).(procInfo); ok && pi.sc == e.sc {
+		who = pi.name
+	}
+	e.tw.Emit(map[string]any{"ev": "ExportBegin", "sc": e.sc, "ids": ids, "deadline": hasDL, "who": who})
 	k := int(atomic.AddInt64(&e.exports, 1))
 	e.sched.Arrive("x@exp.begin")
 	answer := "ok"
@@ -202,7 +214,7 @@ func (e *recExporter) ExportSpans(ctx context.Context, spans []sdktrace.ReadOnly
 		atomic.AddInt64(&e.timedOut, 1)
 	}
 	e.sched.Arrive("x@exp.end") // second gate of the exporter (directed schedules only): hold a begun export
-	e.tw.Emit(map[string]any{"ev": "ExportEnd", "sc": e.sc, "err": errClass(err)})
+	e.tw.Emit(map[string]any{"ev": "ExportEnd", "sc": e.sc, "err": errClass(err), "who": who})
 	return err
 }
 
@@ -233,8 +245,13 @@ type callCtx struct {
 	expire func() // logs CtxDone, then cancels (nil for Background)
 }
 
-// runScenario executes sc on the real code.
-func runScenario(scn int, sc Scenario, tw *vh.TraceWriter, res *vh.Result) {
+// leaked: some earlier scenario of this process ended with goroutines still running. Their hook calls
+// that carry no span / ctx (bsp.drain.empty) cannot be told from the current scenario's: scenarios
+// recorded afterwards are not used for the implementation-level validation (Cfg.clean = false).
+var leaked bool
+
+// runScenario executes sc on the real code. pts: also record one Pt line per verif point passed.
+func runScenario(scn int, sc Scenario, pts bool, tw *vh.TraceWriter, res *vh.Result) {
 	rng := rand.New(rand.NewSource(sc.Seed))
 	sched := vh.NewSched(sc.Script, sc.Seed+7)
 	sched.Perturb = sc.Perturb
@@ -264,8 +281,34 @@ func runScenario(scn int, sc Scenario, tw *vh.TraceWriter, res *vh.Result) {
 	if kind == "simple" {
 		maxbatch = 1
 	}
+	// the processes of the scenario as BSP.tla names them: every ForceFlush call is a flusher of its own
+	fnames, snames, expiring := []string{}, []string{}, []string{}
+	for f := 1; f <= sc.Flushers; f++ {
+		for j := 1; j <= sc.FlushesPer; j++ {
+			if sc.FlushesPer > 1 {
+				fnames = append(fnames, fmt.Sprintf("f%d.%d", f, j))
+			} else {
+				fnames = append(fnames, fmt.Sprintf("f%d", f))
+			}
+		}
+	}
+	for s := 1; s <= sc.Stoppers; s++ {
+		snames = append(snames, fmt.Sprintf("s%d", s))
+	}
+	for _, c := range append(append([]string{}, fnames...), snames...) {
+		if sc.Ctx[c] != "" && kind != "simple" {
+			expiring = append(expiring, c)
+		}
+	}
 	tw.Emit(map[string]any{"ev": "Cfg", "sc": scn, "qcap": sc.QCap, "maxbatch": maxbatch, "blocking": sc.Blocking,
-		"exportTimeout": sc.ExportTOms > 0, "name": sc.Name, "kind": kind})
+		"exportTimeout": sc.ExportTOms > 0, "name": sc.Name, "kind": kind,
+		"producers": sc.Producers, "spansPer": sc.SpansPer, "flushers": fnames, "stoppers": snames, "expiring": expiring,
+		"pts": pts, "clean": !leaked})
+	pt := func(proc, point string, id int, by string) {
+		if pts {
+			tw.Emit(map[string]any{"ev": "Pt", "sc": scn, "proc": proc, "point": point, "id": id, "by": by})
+		}
+	}
 
 	var bsp sdktrace.SpanProcessor
 	if kind == "simple" {
@@ -310,6 +353,11 @@ func runScenario(scn int, sc Scenario, tw *vh.TraceWriter, res *vh.Result) {
 			if !known {
 				return // flush marker or a span of another scenario
 			}
+			if point == "bsp.worker.dequeued" || point == "bsp.worker.appended" || point == "bsp.drain.dequeued" {
+				pt("w", point, id, "")
+			} else {
+				pt(owner[id][:strings.Index(owner[id], ":")], point, id, "")
+			}
 			switch point {
 			case "bsp.enq.dropped":
 				total := 0
@@ -331,6 +379,7 @@ func runScenario(scn int, sc Scenario, tw *vh.TraceWriter, res *vh.Result) {
 				sched.Arrive(owner[id] + "@" + point)
 			}
 		case "bsp.drain.empty":
+			pt("w", point, 0, "")
 			sched.Arrive("w@" + point)
 		default: // ForceFlush / Shutdown points carry the caller's ctx
 			if len(args) == 0 {
@@ -345,6 +394,13 @@ func runScenario(scn int, sc Scenario, tw *vh.TraceWriter, res *vh.Result) {
 				return
 			}
 			proc := pi.name
+			if point == "bsp.sd.closed" {
+				// passed by the helper goroutine of the Shutdown body ("hs"), which carries the ctx of the
+				// Shutdown call that ran the body
+				pt("hs", point, 0, proc)
+			} else {
+				pt(proc, point, 0, "")
+			}
 			switch point {
 			case "bsp.ff.stopped", "bsp.ff.stopch":
 				tw.Emit(map[string]any{"ev": "FFEarly", "sc": scn, "proc": proc})
@@ -557,6 +613,7 @@ func runScenario(scn int, sc Scenario, tw *vh.TraceWriter, res *vh.Result) {
 	// quiescent only if everybody returned; a late export by a leaked goroutine would otherwise be misjudged
 	tw.Emit(map[string]any{"ev": "EndScenario", "sc": scn, "quiescent": len(blocked) == 0, "blocked": blocked})
 	if len(blocked) > 0 {
+		leaked = true
 		// let leaked goroutines not pollute the next scenario's hook; they only ever block on channels
 		time.Sleep(2 * time.Millisecond)
 	}
@@ -617,6 +674,7 @@ func main() {
 	}
 	fs := flag.NewFlagSet(os.Args[1], flag.ExitOnError)
 	n := fs.Int("n", 200, "")
+	npt := fs.Int("pt", 0, "random: the first M scenarios also record Pt lines")
 	in := fs.String("in", "", "")
 	out := fs.String("out", "trace.ndjson", "")
 	resF := fs.String("res", "result.json", "")
@@ -631,7 +689,7 @@ func main() {
 		r := rand.New(rand.NewSource(vh.Seed()))
 		for i := 0; i < *n; i++ {
 			sc := randomScenario(r)
-			runScenario(i, sc, tw, res)
+			runScenario(i, sc, i < *npt, tw, res)
 			res.Executed++
 			if len(sc.Ctx) > 0 {
 				res.Count("scenarios_with_caller_ctx", 1)
@@ -649,7 +707,7 @@ func main() {
 			if sc.Seed == 0 {
 				sc.Seed = vh.Seed() + int64(i)
 			}
-			runScenario(i, sc, tw, res)
+			runScenario(i, sc, true, tw, res)
 			res.Executed++
 			if i < 2 {
 				res.Sample(sc)
